@@ -273,4 +273,56 @@ theorem msg_prefix_err (name : Bytes) (typ seq : Int) (hn : name.length < 214748
   rw [this, rd32_take _ _ (by omega), r4, if_neg (by omega), if_pos (by omega)]
 
 
+
+theorem be32_rd32 (a c d e : UInt8) (rest : Bytes) : be32 (rd32 (a :: c :: d :: e :: rest)) = [a, c, d, e] := by
+  have ha := a.toNat_lt; have hc := c.toNat_lt; have hd := d.toNat_lt; have he := e.toNat_lt
+  simp only [rd32, be32]
+  have e1 : UInt8.ofNat ((a.toNat * 16777216 + c.toNat * 65536 + d.toNat * 256 + e.toNat) / 16777216) = a := by
+    apply UInt8.toNat_inj.mp; simp [UInt8.toNat_ofNat']; omega
+  have e2 : UInt8.ofNat ((a.toNat * 16777216 + c.toNat * 65536 + d.toNat * 256 + e.toNat) / 65536) = c := by
+    apply UInt8.toNat_inj.mp; simp [UInt8.toNat_ofNat']; omega
+  have e3 : UInt8.ofNat ((a.toNat * 16777216 + c.toNat * 65536 + d.toNat * 256 + e.toNat) / 256) = d := by
+    apply UInt8.toNat_inj.mp; simp [UInt8.toNat_ofNat']; omega
+  have e4 : UInt8.ofNat (a.toNat * 16777216 + c.toNat * 65536 + d.toNat * 256 + e.toNat) = e := by
+    apply UInt8.toNat_inj.mp; simp
+  rw [e1, e2, e3, e4]
+
+theorem be32_rd32_take (b : Bytes) (h : 4 ≤ b.length) : be32 (rd32 b) = b.take 4 := by
+  match b, h with
+  | a :: c :: d :: e :: rest, _ => rw [be32_rd32]; simp
+
+theorem twos32_toI32 (n : Nat) (h : n < 4294967296) : twos 32 (toI32 n) = n := by
+  simp [twos, toI32]; split <;> split <;> omega
+
+/-- whatever ReadMessageBegin accepts is exactly an encoded header: the consumed bytes are the
+    encoding of the returned name, type and seq -/
+theorem msg_accept_exact (b name : Bytes) (typ seq : Int) (l : Nat)
+    (h : binReadMessageBegin b = .ok (name, typ, seq, l)) :
+    b.take l = enc (.messageBegin name typ seq) ∧ (Val.messageBegin name typ seq).wf := by
+  rw [binReadMessageBegin_char] at h
+  repeat' split at h
+  all_goals simp at h
+  rename_i h4 hv h8 hn hl
+  obtain ⟨h1, h2, h3, h5⟩ := h
+  have hw := rd32_lt b
+  have hq := rd32_lt (b.drop (8 + rd32 (b.drop 4)))
+  have hv' : rd32 b / 65536 = 0x8001 := by omega
+  have hlen : name.length = rd32 (b.drop 4) := by rw [← h1]; simp; omega
+  constructor
+  · -- b.take l = be32 w ++ be32 n ++ name ++ be32 s
+    have hty : msgType16 typ = rd32 b % 65536 := by rw [← h2]; unfold msgType16; omega
+    have e0 : (0x80010000 : Nat) + msgType16 typ = rd32 b := by rw [hty]; omega
+    simp only [enc, u32_eq, e0, hlen]
+    rw [← h3, twos32_toI32 _ hq]
+    rw [be32_rd32_take b (by omega), be32_rd32_take (b.drop 4) (by simp; omega),
+      be32_rd32_take (b.drop (8 + rd32 (b.drop 4))) (by simp; omega), ← h1, ← h5]
+    generalize rd32 (b.drop 4) = n at *
+    have : b.take (12 + n) = b.take 4 ++ (b.drop 4).take 4 ++ (b.drop 8).take n ++ (b.drop (8 + n)).take 4 := by
+      rw [show 12 + n = 4 + (4 + (n + 4)) by omega, List.take_add, List.take_add, List.take_add]
+      simp [List.drop_drop, List.append_assoc]
+    rw [this]
+  · have hs : inI32 seq := by rw [← h3]; unfold inI32; simp [toI32]; split <;> omega
+    refine ⟨by rw [hlen]; simpa using (show rd32 (b.drop 4) < 2147483648 by omega), by omega, by omega, hs⟩
+
+
 end Verif.Wire
